@@ -12,7 +12,8 @@ for sid in sorted(mx):
         rows.append(f"| {sid} | (patch does not apply) | | |")
         continue
     own = sid.split("-")[0]
-    meta = json.load(open(os.path.join(VERIF, "seeded", sid, "meta.json")))
+    mp = os.path.join(VERIF, "seeded", sid, "meta.json")
+    meta = json.load(open(mp)) if os.path.exists(mp) else {"summary": "(no meta.json delivered; see patch.diff: " + ", ".join(sorted({l[6:].strip() for l in open(os.path.join(VERIF, "seeded", sid, "patch.diff")) if l.startswith("+++ b/")})) + ")"}
     summ = " ".join(str(meta.get("summary", "")).split()).replace("|", "/")[:150]
     rules = ", ".join(r[own]["rules"]) if r[own]["exit"] == 1 else ("*undecided (analysis error, exit 2)*" if r[own]["exit"] == 2 else "**not reported**")
     if r[own]["exit"] != 1:
